@@ -119,8 +119,12 @@ class Sym:
     rad2deg = degrees
     def sqrt(s): return Sym(symcore.sqrt_(s.t))
     def arctan2(s, o): return Sym(ATAN2(s.t, tz(o)))
-    def arcsin(s): return Sym(ASIN(s.t))
-    def arccos(s): return Sym(ACOS(s.t))
+    def arcsin(s):
+        if symcore.ASIN_TOTAL[0] and not any(q.eq(s.t) for _, q in CTX.domain): CTX.domain.append(("asin", s.t))     # domain as an obligation of the caller
+        return Sym(ASIN(s.t))
+    def arccos(s):
+        if symcore.ASIN_TOTAL[0] and not any(q.eq(s.t) for _, q in CTX.domain): CTX.domain.append(("acos", s.t))
+        return Sym(ACOS(s.t))
     def conjugate(s): return s
     def floor(s): return Sym(z3.ToReal(z3.ToInt(s.t)))
     def rint(s): return Sym(symcore.rne(s.t))
